@@ -4,6 +4,7 @@ import CssVerif.Lemmas.TokDet
 import CssVerif.Lemmas.TokAppend
 import CssVerif.Lemmas.TokLex2
 import CssVerif.Lemmas.TokFull
+import CssVerif.Lemmas.TokPush
 /-!
 # C05 — tokenizer: total, lossless, position-accurate, classifies by the grammar
 
@@ -560,6 +561,70 @@ example : (tokenize [47, 42, 32, 99] true true).tokens.map proj = [("COMMENT", [
 /-- a construct that is not the last thing in the text is not completed: `"ab` LF `c` -/
 example : (tokenize [34, 97, 98, 10, 99] true true).tokens.map proj =
     [("INVALID", [34, 97, 98]), ("S", [10]), ("IDENT", [99]), ("EOF", [])] := by decide +kernel
+
+/-! ## T5.9 the generator with `push` (`self._pushed`)
+
+Model: `Model/TokPush.lean` — the generator `tokenize` as a program (`program text full doC`: plain yields for BOM,
+CHARSET_SYM, EOF; one event per loop iteration: drain `self._pushed`, then yield the token unless it is a filtered
+comment), a consumer script of `next` / `push ts` actions, `runP st acts` = the outputs of the `next` calls
+(`.text` token of the text, `.pushed` token handed in by `push`, `.stop`), `endP st acts` = the state after the script.
+`remaining st` = text tokens still to come, `pending st` = pushed tokens not yet yielded. -/
+
+/-- without `push` the generator yields exactly the tokens of the pure run -/
+theorem program_is_tokenize (text : Cps) (full doC : Bool) :
+    emitted (program text full doC) = (tokenize text full doC).tokens :=
+  program_emitted text full doC
+
+/-- **T5.9 push-back never disturbs the tokens of the text**: for every consumer script — whatever is pushed and
+whenever — the text tokens that come out are, in order, an initial part of the tokens of the pure run; the rest is
+what the generator still holds. Nothing of the text is lost, repeated or reordered. -/
+theorem pushed_never_disturbs_text (text : Cps) (full doC : Bool) (acts : List Act) :
+    (tokenize text full doC).tokens =
+      (runP (initP text full doC) acts).filterMap Out.text? ++ remaining (endP (initP text full doC) acts) := by
+  rw [← program_emitted]
+  exact run_text acts (initP text full doC)
+
+/-- **T5.9 pushed tokens are conserved**: what was pushed (in script order) is, up to order, what has been yielded
+plus what the tokenizer still holds; so no pushed token is yielded twice and none is invented. -/
+theorem pushed_conserved (st : PSt) (acts : List Act) :
+    ((runP st acts).filterMap Out.pushed? ++ pending (endP st acts)).Perm (pushedBy acts ++ pending st) :=
+  run_pushed acts st
+
+/-- a script without `push`, on a fresh tokenizer, yields no pushed token -/
+theorem no_push_no_pushed (text : Cps) (full doC : Bool) (n : Nat) :
+    (runP (initP text full doC) (List.replicate n Act.next)).filterMap Out.pushed? = [] :=
+  run_no_push (initP text full doC) rfl n
+
+/-- **what is pushed after the last loop iteration is never yielded** (it stays in `self._pushed`): `yield from
+self._pushed` runs at the start of a loop iteration only, so a token handed back after the last token of the text (or
+after EOF) does not come again. Not part of C05's statement (which is about `tokenize` with an empty push-back list);
+recorded because the consumer `prodparser.py:593/:631` pushes tokens back expecting to see them again. -/
+theorem push_after_last_iteration_is_lost (st : PSt) (h : NoIter st) (acts : List Act) :
+    (runP st acts).filterMap Out.pushed? = [] :=
+  run_noIter acts st h
+
+/-- example: text `a b` (IDENT S IDENT); push X after the first token: X comes before S; push Y after the last
+token: Y never comes -/
+example :
+    let X : Item := ⟨"PUSHED", [1], 0, 0, [], [], true⟩
+    let Y : Item := ⟨"PUSHED", [2], 0, 0, [], [], true⟩
+    (runP (initP [97, 32, 98] true true) [.next, .push [X], .next, .next, .next, .push [Y], .next, .next]).map
+        (fun o => match o with
+          | .text it => it.typ
+          | .pushed it => "pushed:" ++ it.typ
+          | .stop => "stop") =
+      ["IDENT", "pushed:PUSHED", "S", "IDENT", "EOF", "stop"] := by decide +kernel
+
+/-- a token pushed while `yield from` is draining is seen by a LATER iteration only (the running one holds the old
+iterator object): push X, Y; after X comes out push Z; Y comes next, then the text token, then Z -/
+example :
+    let T (n : Nat) : Item := ⟨"PUSHED", [n], 0, 0, [], [], true⟩
+    (runP (initP [97, 32, 98] false true) [.next, .push [T 1, T 2], .next, .push [T 3], .next, .next, .next, .next]).map
+        (fun o => match o with
+          | .text it => it.typ
+          | .pushed it => "P" ++ toString (it.value.headD 0)
+          | .stop => "stop") =
+      ["IDENT", "P1", "P2", "S", "P3", "IDENT"] := by decide +kernel
 
 /-! ## the string productions are matched in one way only (fix ad43c3b)
 
